@@ -154,6 +154,12 @@ def common_judge(case, o, mo, pid):
 
 
 F18_MARK = "[fitted-threshold-equals-training-score]"
+# F18 changes which training rows a stored operation selects, hence the achieved metric values, the implementation's
+# apparent grid index, the achieved objective and the comparison of rules / predictions with the exact model.  It CANNOT
+# make fit raise, change the dict keys, make _pmf_predict disagree with the stored rule, produce weights that are not a
+# mixture or labels that do not follow the reported pmf: those relations are never attributed to the known finding.
+F18_NEVER = ("fit-accepts", "keys", "pmf-valid", "pmf-matches-rule", "rule-is-mixture", "predict-shape",
+             "predict-follows-pmf", "degenerate", "impl-total")
 
 
 def mark_f18(case, o, probs):
@@ -174,7 +180,8 @@ def mark_f18(case, o, probs):
                 hit = True
     if hit:
         for p in probs:
-            if p.kind in ("property", "correspondence"):
+            if p.kind in ("property", "correspondence") and not any(
+                    (p.relation or "").endswith("." + r) for r in F18_NEVER):
                 p.relation = (p.relation or "") + F18_MARK
     return probs
 
@@ -191,7 +198,7 @@ def query_oracle(case, o):
                         f"{len(q)} query rows", "C04.predict-shape")]
     for k, (g, s) in enumerate(q):
         p1, p0 = o["qpmf1"][k], o["qpmf0"][k]
-        want = F(0) if g == -1 else tc.prob_of_rule(o["rules"][str(g)], F(s))
+        want = F(0) if g == -1 else tc.prob_of_rule(o["rules"][str(g)], tc.qscore(s))
         if not (math.isfinite(p1) and abs(p1 - float(want)) <= TOL):
             probs.append(Problem("property", f"query row {k} (group {g}, score {s}): _pmf_predict gives {p1!r}, the fitted rule "
                                  f"of its group {o['rules'].get(str(g))} gives {float(want)!r}", "C04.pmf-matches-rule"))
@@ -225,7 +232,7 @@ def query_correspondence(case, o, m1, qline, pid, ctx):
     pos = {g: j for j, g in enumerate(gs)}
     compared = 0
     for k, (g, s) in enumerate(q):
-        want = F(0) if g == -1 else tc.prob_of_rule(m1["rules"][pos[g]], F(s))
+        want = F(0) if g == -1 else tc.prob_of_rule(m1["rules"][pos[g]], tc.qscore(s))
         if mp[k] != want:
             probs.append(tc.model_problem(f"model _pmf_predict of query row {k} is {mp[k]}, its own rule gives {want}", pid))
             continue
@@ -237,7 +244,7 @@ def query_correspondence(case, o, m1, qline, pid, ctx):
         if abs(o["qpmf1"][k] - float(mp[k])) > TOL:
             probs.append(Problem("correspondence", f"query row {k} (group {g}, score {s}): implementation P(1)="
                                  f"{o['qpmf1'][k]!r}, model (fit then predict) {float(mp[k])!r}", f"{pid}.predict-vs-model"))
-        elif len(ml) == len(q) and abs(float(mp[k]) - float(us[k])) > 1e-9 and ml[k] != o["qlabels"][k]:
+        elif len(ml) == len(q) and abs(float(mp[k]) - float(us[k])) > 2 * TOL and ml[k] != o["qlabels"][k]:
             probs.append(Problem("correspondence", f"query row {k}: implementation label {o['qlabels'][k]}, model label "
                                  f"{ml[k]} (p={float(mp[k])!r}, u={float(us[k])!r})", f"{pid}.predict-vs-model"))
     ctx["query_compared"] = compared
@@ -316,6 +323,8 @@ class ThresholdCheck(Check):
             tags.append("outside-quantifier(degenerate group)")
         if "error" in o:
             tags.append("impl-rejected")
+            # which ValueError it was is shown in the evidence, not judged (messages are never compared)
+            tags.append("impl-rejected:degenerate-labels-message" if o.get("degenerate") else "impl-rejected:other-message")
         tags += o.get("_tags", [])
         key = (case["constraint"], case["objective"], case["flip"], case["grid"],
                tuple(sorted(map(tuple, case["rows"]))))
@@ -365,12 +374,12 @@ class CHECK(ThresholdCheck):
     explanation = ("parity theorems proved over the Lean model for all inputs; correspondence compares the "
                    "implementation's rule (as probabilities on the training scores) and achieved (x,y) per group with "
                    "the exact model at the implementation's grid index; a different arg-max is accepted only when the "
-                   "exact objective values agree within 1e-8 (floating-point tie), a different mixture only when the "
-                   "operations are exactly collinear with the model's bracket; tolerance 1e-8 on O(1) quantities")
+                   "exact objective values agree within 1e-12 (floating-point tie), a different mixture only when the "
+                   "operations are exactly collinear with the model's bracket; tolerance 1e-12 on O(1) quantities (measured max deviation 6.7e-16)")
     trusted = ("pandas groupby / sort_values(by=[x,y]) stability, np.searchsorted, np.linspace, Series.idxmax are "
                "modelled by their specification (stable lexicographic sort, count of values <= g, i/N, first maximum)",
                "np.around(.,15) before the equalized-odds arg-max and IEEE rounding are not modelled (exact arg-max; "
-               "ties within 1e-8 accepted)",
+               "ties within 1e-12 accepted)",
                "the pass-through estimator (predict returns the score column) stands for an arbitrary prefit scorer",
                "IEEE rounding of the threshold midpoint is not modelled: the generator keeps every midpoint of two near-tie "
                "scores exactly representable (t >= 1); the remaining case (adjacent doubles) is known finding F18",
